@@ -154,6 +154,12 @@ RPQ = "socket::patterns::ready_pipe_queue::ReadyPipeQueue"
 PMS = "socket::patterns::ready_pipe_queue::PipeMessageSender"
 
 
+def addressed_recv_timeouts(h):
+    """the same obligations for AddressedIngressEngine::recv_logical_message (REQ / REP / DEALER receive path)"""
+    h.params = dict(h.params, addressed=True)
+    return ingress_recv_timeouts(h)
+
+
 def ingress_recv_timeouts(h):
     """AnonymousIngressEngine::{recv, recv_multipart} (PULL/SUB) honour RCVTIMEO on an empty queue and do not lose
     a message that arrives after a refused / timed-out call."""
@@ -169,8 +175,10 @@ def ingress_recv_timeouts(h):
         d = h.bvar("rcvtimeo_ns", 128)
         h.assume(z3.And(z3.UGT(d, 0), z3.ULE(d, z3.BitVecVal(2147483647 * 1_000_000, 128))))
         rcv = some(dur_ns(d))
-    eng = Ref(Cell(h.method(AIE, "new", 4), "ingress"), ())
-    snd = Ref(Cell(h.method(AIE, "register_pipe", eng, 0, 4, 1), "s0"), ())
+    addressed = h.params.get("addressed", False)
+    ENG = "socket::patterns::addressed_ingress::AddressedIngressEngine" if addressed else AIE
+    eng = Ref(Cell(h.method(ENG, "new", 4), "ingress"), ())
+    snd = Ref(Cell(h.method(ENG, "register_pipe", eng, 0, 4, 1), "s0"), ())
     armed = []
     st = {"fire": False}
     pop_fn = prog.resolve_method("", RPQ, "pop", None)
@@ -196,9 +204,9 @@ def ingress_recv_timeouts(h):
         return NotImplemented
     h.it.extern = extern
     h.panic_role = "c14.ingress-recv"
-    which = h.choose(2, "operation")
-    name = "recv" if which == 0 else "recv_multipart"
-    f = Fut(h, AIE, name, [eng, rcv])
+    which = h.choose(2, "operation") if not addressed else 1
+    name = ("recv" if which == 0 else "recv_multipart") if not addressed else "recv_logical_message"
+    f = Fut(h, ENG, name, [eng, rcv])
     r = f.poll()
     def enqueue(tags):
         fb = Ref(Cell(h.method("message::FrameBatch", "new"), "fb"), ())
@@ -208,11 +216,14 @@ def ingress_recv_timeouts(h):
     def read_all():
         got = []
         for _ in range(4):
-            f2 = Fut(h, AIE, "recv", [eng, some(dur_ns(0))])
+            f2 = Fut(h, ENG, "recv_logical_message" if addressed else "recv", [eng, some(dur_ns(0))])
             r2 = f2.poll()
             if r2 is None or r2.idx != 0:
                 break
-            got.append(_tag(r2.f[0]))
+            if addressed:
+                got += [_tag(m) for m in _frames(r2.f[0].f[1])]
+            else:
+                got.append(_tag(r2.f[0]))
         return got
     if mode == 1:
         h.check(r is not None and r.idx == 1 and r.f[0].vname == "ResourceLimitReached", "c14.ingress-recv.rcvtimeo-zero-did-not-fail-immediately",
@@ -237,7 +248,7 @@ def ingress_recv_timeouts(h):
         r = f.poll()
         h.check(r is not None and r.idx == 0, "c14.ingress-recv.recv-did-not-complete-when-a-message-arrived")
         if r is not None and r.idx == 0:
-            got = [_tag(r.f[0])] if which == 0 else [_tag(m) for m in _frames(r.f[0])]
+            got = [_tag(r.f[0])] if which == 0 else [_tag(m) for m in _frames(r.f[0].f[1] if addressed else r.f[0])]
             got += read_all()
             h.check(got == [0xA1, 0xA2], "c14.ingress-recv.message-not-delivered-exactly-once", str(got))
         h.cover("c14.ingress-recv.completed-after-wait")
